@@ -7,7 +7,7 @@ the await-free segments of `function.py`:
 * `spawn t fg`      – a task starts running: `run_coro` does `our_tasks.add(task)` (`fg = false`); `fg = true` is a
                       task that was *not* created by `Function.create_task` (it is never in `our_tasks`)
 * `unique t k km`   – `task_unique(name, kill_me)` called by task `t` (closure of `task_unique_factory`); `k` is the
-                      already prefixed key `f"{global_ctx}.{name}"`.  The kill-me arm enqueues the caller itself and
+                      key `(global_ctx, name)` (pre-fix: the string `f"{global_ctx}.{name}"`).  The kill-me arm enqueues the caller itself and
                       parks it in `sleep(100000)`; otherwise the previous owner is enqueued if it is one of ours and
                       the caller claims if it is one of ours.
 * `reap`            – one iteration of `task_reaper`: `cmd = await q.get(); cmd[1].cancel(); await cmd[1]`
@@ -118,14 +118,36 @@ def busy (s : St κ) : Bool :=
   | some r => s.live r
   | none => false
 
-/-- one reaper iteration: pop, `cancel()`, start awaiting -/
-def reapStep (s : St κ) : St κ :=
-  if busy s then s else
+/-- deviation flags (DESIGN §4); every flag is `true` for the code as it is now (`current`) and `false` for the code
+before the corresponding `fix:` commit of /repo (`preFix`, kept for the regression theorems):
+
+* `legacyClaimKillMe` – a7d4ccd: the legacy `do_func_call` passes the decorator's `kill_me` on to the claim,
+  `await task_unique_func(name, **kwargs)` (was: `task_unique_func(name)` after the dispatcher's check)
+* `reaperDetached`    – 32185a9: `task_reaper` only calls `cmd[1].cancel()` (was: `…; await cmd[1]`, which made every
+  later cancellation wait for the cancelled task's clean-up)
+* `tupleKeys`         – ef1f444: the unique-name maps are keyed by the tuple `(ctx_name, name)` and `name2id` compares
+  the context component (was: the string `f"{ctx_name}.{name}"` and a `startswith` test) -/
+structure Cfg where
+  legacyClaimKillMe : Bool
+  reaperDetached : Bool
+  tupleKeys : Bool
+
+def current : Cfg := { legacyClaimKillMe := true, reaperDetached := true, tupleKeys := true }
+def preFix : Cfg := { legacyClaimKillMe := false, reaperDetached := false, tupleKeys := false }
+
+/-- one reaper iteration: pop, `cancel()`; when `awaits` (pre-fix shape) it then awaits that task and takes no further
+command while it runs -/
+def reapStepCfg (awaits : Bool) (s : St κ) : St κ :=
+  if awaits && busy s then s else
   match s.reaperQ with
   | [] => s
   | h :: q =>
-    if s.live h then { s with reaperQ := q, cancelReq := upd s.cancelReq h true, reaping := some h }
+    if s.live h then
+      { s with reaperQ := q, cancelReq := upd s.cancelReq h true, reaping := if awaits then some h else none }
     else { s with reaperQ := q, reaping := none }       -- cancel() of a finished task is a no-op
+
+/-- the reaper of the code as it is now: it never waits -/
+def reapStep (s : St κ) : St κ := reapStepCfg (!current.reaperDetached) s
 
 /-- `for name in unique_task2name[task]: del unique_name2task[name]` – stops at the first KeyError -/
 def delStop (owner : κ → Option Task) : List κ → κ → Option Task
@@ -159,15 +181,6 @@ def decoRuns (s : St κ) (k : κ) (km : Bool) : Bool := !(km && nameUsed s k)
 def decoNewStep (s : St κ) (t : Task) (k : κ) (km : Bool) : St κ :=
   if decoRuns s k km then uniqueStep s t k false else s
 
-/-- deviation flag (DESIGN §4) for the legacy `@task_unique`: `legacyClaimKillMe = true` (`current`) is /repo a7d4ccd –
-`do_func_call` passes the decorator's `kill_me` on to the claim, `await task_unique_func(name, **kwargs)`;
-`false` (`preFix`) is the earlier code, which claimed with `task_unique_func(name)` after the dispatcher's check. -/
-structure Cfg where
-  legacyClaimKillMe : Bool
-
-def current : Cfg := { legacyClaimKillMe := true }
-def preFix : Cfg := { legacyClaimKillMe := false }
-
 /-- legacy `@task_unique`: first segment of the task that `call_action` created (the dispatcher's
 `unique_name_used` check is `nameUsed` in the state in which the trigger loop ran) -/
 def decoLegacyStep (cfg : Cfg) (s : St κ) (t : Task) (k : κ) (km : Bool) : St κ :=
@@ -185,26 +198,36 @@ def run (ops : List (Op κ)) : St κ := ops.foldl step init
 /-- a cancel is pending (queued) or delivered -/
 def Pending (s : St κ) (t : Task) : Prop := t ∈ s.reaperQ ∨ s.cancelReq t = true
 
-/-! ### keys: `f"{ctx.get_global_ctx_name()}.{name}"` and the prefix view of `task.name2id()` -/
+/-! ### keys: the tuple `(ctx_name, name)` (pre-fix: the string `f"{ctx_name}.{name}"`) and `task.name2id()` -/
 
 abbrev Str := List Char
 
+/-- pre-fix key -/
 def mkKey (ctx name : Str) : Str := ctx ++ '.' :: name
 
-/-- `task.name2id()`: `if task_name.startswith(prefix): ret[task_name[len(prefix):]] = task_id` -/
+/-- pre-fix `task.name2id()`: `if task_name.startswith(prefix): ret[task_name[len(prefix):]] = task_id` -/
 def viewName (ctx key : Str) : Option Str :=
   if (ctx ++ ['.']).isPrefixOf key then some (key.drop (ctx.length + 1)) else none
 
 /-- two context names whose dotted prefixes are not nested -/
 def Sep (c c' : Str) : Prop := ¬ (c ++ ['.']) <+: (c' ++ ['.']) ∧ ¬ (c' ++ ['.']) <+: (c ++ ['.'])
 
-/-- the reaper's cancel-and-await cycle under the runtime assumption that a cancelled task ends at its next
-suspension point: deliver, then the reaped task runs its `finally` -/
+/-- keys of the unique-name maps; the pre-fix string key is embedded as `(string, "")` -/
+abbrev Key := Str × Str
+
+/-- the key `task_unique` / `unique_name_used` build from the context name and the user's name -/
+def keyOf (tuple : Bool) (ctx name : Str) : Key := if tuple then (ctx, name) else (mkKey ctx name, [])
+
+/-- `task.name2id()` of context `ctx`: under which name (if at all) it lists key `k` -/
+def viewOf (tuple : Bool) (ctx : Str) (k : Key) : Option Str :=
+  if tuple then (if k.1 = ctx then some k.2 else none) else viewName ctx k.1
+
+/-- one reaper delivery followed, under the runtime assumption that a cancelled task ends at its next suspension
+point, by the `finally` of the task it was delivered to -/
 def reapCycle (s : St κ) : St κ :=
-  let s1 := reapStep s
-  match s1.reaping with
-  | some r => exitStep s1 r
-  | none => s1
+  match s.reaperQ with
+  | [] => s
+  | h :: _ => exitStep (reapStep s) h
 
 def drain : Nat → St κ → St κ
   | 0, s => s
